@@ -32,6 +32,13 @@ Cfg_oc       == [Base EXCEPT !.oc = TRUE]
 Cfg_single   == [Base EXCEPT !.multi = FALSE]
 Cfg_oc1      == [Base EXCEPT !.oc = TRUE, !.np = 1, !.cpucap = 3, !.suspDen = 1]     \* one pool, 3 cpus, longer suspensions
 Cfg_long     == [Base EXCEPT !.suspDen = 1]                                           \* SuspTicks = ram
+\* optional behaviours (Eudoxia.tla, Opt): a caller that goes on after a refusal (one pool), kills from outside
+Base1        == [Base EXCEPT !.np = 1, !.cpucap = 3, !.suspDen = 1]
+Cfg_goon     == [f \in DOMAIN Base1 \cup {"goOn"} |-> IF f = "goOn" THEN TRUE ELSE Base1[f]]
+Cfg_goon_oc  == [Cfg_goon EXCEPT !.oc = TRUE]
+Cfg_goon_s   == [Cfg_goon EXCEPT !.multi = FALSE]
+Cfg_extkill  == [f \in DOMAIN Cfg_long \cup {"extKill"} |-> IF f = "extKill" THEN TRUE ELSE Cfg_long[f]]
+Cfg_extkill1 == [f \in DOMAIN Cfg_oc1 \cup {"extKill", "goOn"} |-> IF f \in {"extKill", "goOn"} THEN TRUE ELSE Cfg_oc1[f]]
 \* the pinned tree's defects, one switch each: TLC must find the violation
 Cfg_D1 == [Base EXCEPT !.minOneTick = FALSE]
 Cfg_D2 == [Base EXCEPT !.minSuspTick = FALSE, !.suspDen = 4]
